@@ -8,17 +8,17 @@ pub(crate) mod chan {
     use std::time::Duration;
 
     // producer side log: how many sends of each kind, in which order, what was sent
-    pub(crate) static SEQ: AtomicUsize = AtomicUsize::new(0);
-    pub(crate) static SENT_LINES: AtomicUsize = AtomicUsize::new(0);
-    pub(crate) static SENT_LEN: AtomicUsize = AtomicUsize::new(0);
-    pub(crate) static SENT_SUM: AtomicUsize = AtomicUsize::new(0);
-    pub(crate) static SHUTDOWN_STAMP: AtomicUsize = AtomicUsize::new(0);
-    pub(crate) static RENDEZVOUS_STAMP: AtomicUsize = AtomicUsize::new(0);
-    pub(crate) static SHUTDOWNS: AtomicUsize = AtomicUsize::new(0);
-    pub(crate) static RENDEZVOUS: AtomicUsize = AtomicUsize::new(0);
+    vstatic!(pub(crate) SEQ: AtomicUsize = AtomicUsize::new(0));
+    vstatic!(pub(crate) SENT_LINES: AtomicUsize = AtomicUsize::new(0));
+    vstatic!(pub(crate) SENT_LEN: AtomicUsize = AtomicUsize::new(0));
+    vstatic!(pub(crate) SENT_SUM: AtomicUsize = AtomicUsize::new(0));
+    vstatic!(pub(crate) SHUTDOWN_STAMP: AtomicUsize = AtomicUsize::new(0));
+    vstatic!(pub(crate) RENDEZVOUS_STAMP: AtomicUsize = AtomicUsize::new(0));
+    vstatic!(pub(crate) SHUTDOWNS: AtomicUsize = AtomicUsize::new(0));
+    vstatic!(pub(crate) RENDEZVOUS: AtomicUsize = AtomicUsize::new(0));
     /// outcome of the next producer-side call: 0 ok, 1 full/timeout, 2 disconnected
-    pub(crate) static NEXT_SEND: AtomicUsize = AtomicUsize::new(0);
-    pub(crate) static NEXT_RENDEZVOUS: AtomicUsize = AtomicUsize::new(0);
+    vstatic!(pub(crate) NEXT_SEND: AtomicUsize = AtomicUsize::new(0));
+    vstatic!(pub(crate) NEXT_RENDEZVOUS: AtomicUsize = AtomicUsize::new(0));
     fn tick() -> usize { SEQ.fetch_add(1, SeqCst) + 1 }
     fn sum(b: &[u8]) -> usize { let mut s = 0usize; let mut i = 0; while i < b.len() { s = s.wrapping_mul(31).wrapping_add(b[i] as usize); i += 1; } s }
     fn note<T>(m: &T) {
@@ -41,10 +41,10 @@ pub(crate) mod chan {
     }
 
     // consumer side: a script of up to 4 messages; entry kinds: 0 = Line([k, k+1]) , 1 = Shutdown, 2 = Empty (try_recv only), 3 = Disconnected
-    pub(crate) static SCRIPT: [AtomicUsize; 4] = [AtomicUsize::new(3), AtomicUsize::new(3), AtomicUsize::new(3), AtomicUsize::new(3)];
-    pub(crate) static POS: AtomicUsize = AtomicUsize::new(0);
-    pub(crate) static RECVS: AtomicUsize = AtomicUsize::new(0);
-    pub(crate) static TRY_RECVS: AtomicUsize = AtomicUsize::new(0);
+    vstatic!(pub(crate) SCRIPT: [AtomicUsize; 4] = [AtomicUsize::new(3), AtomicUsize::new(3), AtomicUsize::new(3), AtomicUsize::new(3)]);
+    vstatic!(pub(crate) POS: AtomicUsize = AtomicUsize::new(0));
+    vstatic!(pub(crate) RECVS: AtomicUsize = AtomicUsize::new(0));
+    vstatic!(pub(crate) TRY_RECVS: AtomicUsize = AtomicUsize::new(0));
     fn next() -> usize { let p = POS.fetch_add(1, SeqCst); if p < 4 { SCRIPT[p].load(SeqCst) + 16 * p } else { 3 } }
     unsafe fn as_t<T>(m: Msg) -> T { let t = core::ptr::read(&m as *const Msg as *const T); core::mem::forget(m); t }
     pub(crate) fn recv_stub<T>(_r: &Receiver<T>) -> Result<T, RecvError> {
